@@ -213,4 +213,8 @@ def run(repo, tier):
             raise AnalysisError(f'vanished anchor: clip of {axn} in _calc_bilinear_weights')
         guard_only(res, 'GUARD', bw, hits[0], set(), f'the clip of `{axn}` to its cell',
                    'outside the grid along one axis the weights are extrapolated (negative weight) instead of taking the nearest edge')
+    apply_specs(repo, res, [
+        ('photutils.psf.gridded_models.GriddedPSFModel.origin', 'stmt', 'xyorigin = (np.array(self.data.shape) - 1) / 2',
+         'ePSF origin = centre of the array, (n - 1) / 2 (half-integer for even sizes)'),
+    ])
     return res
